@@ -38,17 +38,45 @@ class HarnessError(Exception):
     pass
 
 
-def load_known(prop: str) -> Dict[str, Dict[str, Any]]:
+class Known:
+    """Known findings of one property.  A signature may contain ``*`` (any run of
+    characters except ``,`` and ``/``) so that one root cause whose footprint varies in an
+    irrelevant tag is one entry; ``**`` matches anything."""
+
+    def __init__(self, entries: List[Dict[str, Any]]) -> None:
+        import re
+        self.entries = entries
+        def rx(pat: str) -> Any:
+            out = []
+            for part in re.split(r'(\*\*|\*)', pat):
+                out.append('.*' if part == '**' else '[^,/]*' if part == '*' else re.escape(part))
+            return re.compile('^' + ''.join(out) + '$')
+        self._rx = [(rx(e['signature']), e) for e in entries]
+
+    def match(self, sig: str) -> Optional[Dict[str, Any]]:
+        for rx, e in self._rx:
+            if rx.match(sig):
+                return e
+        return None
+
+    def __contains__(self, sig: str) -> bool:
+        return self.match(sig) is not None
+
+    def __getitem__(self, sig: str) -> Dict[str, Any]:
+        e = self.match(sig)
+        if e is None:
+            raise KeyError(sig)
+        return e
+
+
+def load_known(prop: str) -> Known:
     try:
         with open(KNOWN_PATH) as f:
             data = json.load(f)
     except FileNotFoundError:
-        return {}
-    out = {}
-    for e in data.get('findings', []):
-        if e.get('property') == prop and e.get('status') == 'known':
-            out[e['signature']] = e
-    return out
+        return Known([])
+    return Known([e for e in data.get('findings', [])
+                  if e.get('property') == prop and e.get('status') == 'known'])
 
 
 def sig_hash(sig: str) -> str:
@@ -91,6 +119,8 @@ def main(argv: Optional[List[str]] = None) -> int:
     ap.add_argument('--no-minimise', action='store_true')
     ap.add_argument('--no-evidence', action='store_true')
     ap.add_argument('--list-signatures', action='store_true', help='print every signature seen (soak mode)')
+    ap.add_argument('--ignore-known', action='store_true', help='treat known findings as violations (to regenerate their replay files)')
+    ap.add_argument('--only', help='regex: report (and minimise) only violations whose signature matches (triage aid)')
     args = ap.parse_args(argv)
     prop = args.property.upper()
     try:
@@ -139,7 +169,7 @@ def do_check(mod: Any, prop: str, args: Any) -> int:
     if args.max_tasks:
         tasks = tasks[:args.max_tasks]
     task_timeout = plan.get('task_timeout', 120.0)
-    known = load_known(prop)
+    known = Known([]) if args.ignore_known else load_known(prop)
 
     acc: Dict[str, Any] = {'results': 0}
     stats_list: List[Tuple[int, Dict[str, Any]]] = []
@@ -160,7 +190,8 @@ def do_check(mod: Any, prop: str, args: Any) -> int:
             for v in res.get('violations', []):
                 sig = v['signature']
                 if sig in known:
-                    known_seen[sig] = known_seen.get(sig, 0) + 1
+                    ksig = known[sig]['signature']
+                    known_seen[ksig] = known_seen.get(ksig, 0) + 1
                     continue
                 cur = violations.get(sig)
                 if cur is None or idx < cur[0]:
@@ -209,6 +240,9 @@ def do_check(mod: Any, prop: str, args: Any) -> int:
     # minimise + write replay files
     out_lines: List[str] = []
     reported = []
+    if args.only:
+        import re as _re
+        violations = {k: v for k, v in violations.items() if _re.search(args.only, k)}
     for sig in sorted(violations):
         idx, v = violations[sig]
         v = dict(v)
@@ -230,8 +264,9 @@ def do_check(mod: Any, prop: str, args: Any) -> int:
         reported.append((sig, path, v.get('detail', '')))
         out_lines.append(f'VIOLATION property={prop} replay={path}')
 
+    kmap = {e['signature']: e for e in known.entries}
     for sig in sorted(known_seen):
-        print(f'KNOWN-FINDING: property={prop} {known[sig]["what_fails"]} [signature {sig}; seen {known_seen[sig]}x]')
+        print(f'KNOWN-FINDING: property={prop} {kmap[sig]["what_fails"]} [signature {sig}; seen {known_seen[sig]}x]')
     for sig, path, detail in reported:
         print(f'violation signature: {sig}\n  {detail[:600]}')
     for line in out_lines:
